@@ -30,17 +30,17 @@ type signerSpec struct {
 
 // rawTx is the field-by-field description of a transaction envelope.
 type rawTx struct {
-	Msgs     []sdk.Msg
-	Memo     string
-	Timeout  uint64
-	ExtOpts  []*codectypes.Any
-	NonCrit  []*codectypes.Any
-	Fee      sdk.Coins
-	Gas      uint64
-	Payer    string
-	Granter  string
-	Tip      *txtypes.Tip
-	Signers  []*signerSpec
+	Msgs      []sdk.Msg
+	Memo      string
+	Timeout   uint64
+	ExtOpts   []*codectypes.Any
+	NonCrit   []*codectypes.Any
+	Fee       sdk.Coins
+	Gas       uint64
+	Payer     string
+	Granter   string
+	Tip       *txtypes.Tip
+	Signers   []*signerSpec
 	NoAuthFee bool // leave AuthInfo.Fee nil
 }
 
